@@ -874,6 +874,10 @@ class FragmentSender(object):
 
     def callback(self, index, success):
 
+        if self.acks[index] is not None:
+            # already resolved by another datagram that carried this fragment
+            return
+
         if not success and self.retry != RetryMode.NONE:
             # resend the fragment that timed out
             cbk = lambda success, idx=index: self.callback(idx, success)
@@ -882,6 +886,12 @@ class FragmentSender(object):
             self.conn._send_type(PacketType.APP_FRAGMENT, payload, self.retry, cbk)
         else:
             self.acks[index] = success
+
+            if all(ack is not None for ack in self.acks):
+                # every fragment is resolved: report once, release the context
+                self.conn.pending_fragments.pop(self.frag_id, None)
+                if self.user_callback:
+                    self.user_callback(all(self.acks))
 
     @staticmethod
     def parsePayload(payload):
